@@ -30,3 +30,51 @@ Definition inGap (arr : list Z) (i : Z) : Prop :=
 Definition accepts (digest : list N -> list N) (f : list N) (arr : list Z)
     (contents : option (list N)) (signedDigest : list N) : Prop :=
   exists d, signedData f arr contents = Ok d /\ digest d = signedDigest.
+
+(* ---------- which data is verified (pkg/pdfcpu/sign/pkcs7.go:217-219, verifyP7Digest :579,
+   verifyP7Signature -> pkcs7.checkSignature, pkcs7/verify.go:105) ----------
+   cmsContent = p7.Content as parsed from the CMS in /Contents (empty: no eContent).
+     detached := len(p7.Content) == 0 ; if detached { p7.Content = data }
+   The decision does NOT look at the SubFilter. *)
+Definition isNil {A} (l : list A) : bool := match l with [] => true | _ => false end.
+
+Inductive digestCheck :=
+| AttrDigestOf (hashed : list N)                  (* VerifyMessageDigestDetached: H(hashed) = messageDigest attribute *)
+| Sha1EqualsContent (hashed content : list N).    (* VerifyMessageDigestEmbedded: SHA1(hashed) = p7.Content *)
+
+Definition dataToVerify (cmsContent data : list N) : digestCheck :=
+  if isNil cmsContent then AttrDigestOf data else Sha1EqualsContent data cmsContent.
+
+Definition hashedData (c : digestCheck) : list N :=
+  match c with AttrDigestOf d => d | Sha1EqualsContent d _ => d end.
+
+(* the content the signer's signature (its messageDigest attribute) is checked against *)
+Definition signatureContent (cmsContent data : list N) : list N :=
+  if isNil cmsContent then data else cmsContent.
+
+(* verifyP7SignerWithContentType, DocModified only, one signer whose certificate is found and
+   who has signed attributes.  attrDigestOK x: H(x) equals the messageDigest attribute;
+   sha1eq d c: SHA1(d) = c; sigOK: the cryptographic signature over the attributes verifies.
+   checkSignature: crypto failure first (DocModified stays Unknown), then the content-binding
+   digest mismatch (True); then applyP7DigestEvidence (True) / markDocumentUnmodified (False). *)
+Definition p7Verdict (attrDigestOK : list N -> bool) (sha1eq : list N -> list N -> bool)
+    (sigOK : bool) (cmsContent data : list N) : tri :=
+  let digestOK := match dataToVerify cmsContent data with
+                  | AttrDigestOf d => attrDigestOK d
+                  | Sha1EqualsContent d c => sha1eq d c
+                  end in
+  if negb sigOK then TUnknown
+  else if negb (attrDigestOK (signatureContent cmsContent data)) then TTrue
+  else if digestOK then TFalse else TTrue.
+
+Fixpoint eqbList (a b : list N) : bool :=
+  match a, b with
+  | [], [] => true
+  | x :: a', y :: b' => (x =? y)%N && eqbList a' b'
+  | _, _ => false
+  end.
+
+(* harness entry point: the messageDigest attribute is the digest of [good]; sha1ok tells whether
+   SHA1(ByteRange bytes) = cmsContent (computed by the harness) *)
+Definition docModifiedP7With (good : list N) (sha1ok sigOK : bool) (cmsContent : list N) :=
+  docModified (p7Verdict (fun x => eqbList x good) (fun _ _ => sha1ok) sigOK cmsContent).
